@@ -328,7 +328,7 @@ inductive Roots (α : Type) where
   | all            -- the zero polynomial: Go reports one NaN root
   | some (rs : List α)
   | unsupported    -- degree ≥ 3: libm-based code, not modelled here
-deriving Repr
+deriving Repr, DecidableEq
 
 /-- The closed-form branches of `IterRealRoots` (degree ≤ 2) with all roots collected
 (`RealRoots`).  `sqrt` is `math.Sqrt`, a parameter. -/
